@@ -122,7 +122,8 @@ Definition sweeps_C17 : list disagreement :=
   sweep_iterator_GetSize ++ sweep_iterator_IsEmpty ++ sweep_iteratorClass_MakeFromArray.
 
 (* ---------- C01: collection/array.go, collection/list.go ---------- *)
-Definition lists : list (list Z) := map vals sizes.                       (* [], [11], [11;22], .. *)
+Definition lists : list (list Z) := map vals sizes.
+Definition probes0 : list Z := [5; 11; 22; 33; 40; 55].                       (* [], [11], [11;22], .. *)
 Definition srcs : list (list Z) := map (fun n => map (fun x => x + 1000) (vals n)) (upto 6).
 Definition aval (l : list Z) : val Z := arr_val l.
 Definition lval (l : list Z) : val Z := lst_val VNil l.
@@ -189,6 +190,16 @@ Definition sweep_list_AsArray := flat_map (fun l =>
 Definition sweep_list_GetIterator := flat_map (fun l =>
   cmp id_GetIterator (lval l) [] (ORet (irep (it_make l), lval l))) lists.
 
+Definition cx := cmp_ext Z.eqb.
+Definition sweep_list_GetIndex := flat_map (fun l => flat_map (fun x =>
+  cmpx cx id_GetIndex (lval l) [VElem x] (ORet (VInt (Z.of_nat (get_index Z.eqb l x)), lval l))) probes0) (lists ++ [[22; 11; 22]])%list.
+Definition sweep_list_ContainsValue := flat_map (fun l => flat_map (fun x =>
+  cmpx cx id_ContainsValue (lval l) [VElem x] (ORet (VBool (contains_value Z.eqb l x), lval l))) probes0) lists.
+Definition sweep_list_ContainsAny := flat_map (fun l => flat_map (fun src =>
+  cmpx cx id_ContainsAny (lval l) [aval src] (ORet (VBool (contains_any Z.eqb l src), lval l))) [[]; [5]; [5; 22]; [33; 7]; [44; 55]]) lists.
+Definition sweep_list_ContainsAll := flat_map (fun l => flat_map (fun src =>
+  cmpx cx id_ContainsAll (lval l) [aval src] (ORet (VBool (contains_all Z.eqb l src), lval l))) [[]; [5]; [11; 22]; [33; 7]; [22; 11; 33]]) lists.
+
 (* the functions that C13 rests on as well *)
 Definition sweeps_seq : list disagreement :=
   sweep_iterator_GetNext ++ sweep_iterator_HasNext ++ sweep_iteratorClass_MakeFromArray ++
@@ -200,7 +211,7 @@ Definition sweeps_seq : list disagreement :=
 Definition sweeps_C01 : list disagreement :=
   sweeps_seq ++ sweep_array_GetValues ++ sweep_array_SetValues ++ sweep_list_GetValues ++ sweep_list_SetValue ++
   sweep_list_SetValues ++ sweep_list_InsertValues ++ sweep_list_AppendValue ++ sweep_list_AppendValues ++
-  sweep_list_RemoveValues.
+  sweep_list_RemoveValues ++ sweep_list_GetIndex ++ sweep_list_ContainsValue ++ sweep_list_ContainsAny ++ sweep_list_ContainsAll.
 
 (* ---------- C13: collection/stack.go ---------- *)
 Definition sval (cap : nat) (l : list Z) : val Z := stk_val VNil VNil (Z.of_nat cap) l.
